@@ -18,6 +18,16 @@ for serving in (True, False):
         s = type(e).__name__
     answers.append((dsa.verify(b"msg", hyb, sig), s))
 set_libsecp256k1_serving(serving=True)
+# F37b: the first version of the repair hashed a slice of the key, which a bytearray key cannot be: a valid key
+# held in a bytearray must still verify
+sec = bytes([2 + (Q[1] & 1)]) + Q[0].to_bytes(32, "big")
+try:
+    held = dsa.verify(b"msg", bytearray(sec), sig)
+except TypeError as e:
+    held = f"TypeError: {e}"
+if held is not True:
+    print(f"DEFECT: a valid key held in a bytearray: {held}")
+    sys.exit(1)
 ok = answers[0] == answers[1]
 print("ok" if ok else f"DEFECT: (verify, sign) with the bindings {answers[0]}, without {answers[1]}")
 sys.exit(0 if ok else 1)
